@@ -16,7 +16,7 @@ CASES = {"quick": 400, "thorough": 12000}
 TECHNIQUE = ("Lean 4 theorems over an executable model of create_merged_selection_set.rs / variable_context.rs (the traversal as the list of `entry().or_insert()` insertions it performs, "
              "the merged map as a sorted association list on paths of normalization keys, client fields expanded with variable substitution); differential correspondence of the model's merged "
              "map with the map the real compiler hands to its printers (dump hook), and direct oracle on the compiler's artifacts, on generated projects and their three rearrangements "
-             "(hx_projgen)")
+             "(hx_projgen) and on an injected shape (one type refinement reached twice at one place, directly and through client fields, with an overlapping linked field) in its four arrangements")
 LEVEL_TEXT = ("Kernel-checked: union of merged maps is idempotent, associative and (on maps that agree on common keys) commutative, sortedness is an invariant (merge_idem, merge_assoc, merge_comm, "
               "mergeSel_sorted); the map produced by merging a selection set is unchanged by permuting selections at every depth (C15_perm), by selecting again what is already selected — in "
               "particular under another alias (C15_dup, C15_dup_alias) — and by moving part of a selection set into a new client field selected at the same place with the variables passed "
@@ -78,6 +78,11 @@ def classify(req, impl):
 
 
 def check_distribution(dist, cases):
+    # the injected shape: one asConcreteType refinement reached twice at one place (directly and through
+    # client fields), the same linked field with different sub-selections on the two sides
+    for t in ("overlap-perm", "overlap-extract"):
+        if dist.get("class:T=" + t, 0) * 25 < cases:
+            return f"injected overlap stream {t} under-represented: {dist.get('class:T=' + t, 0)}/{cases}"
     for t in ("perm", "dup", "extract"):
         if dist.get("class:T=" + t, 0) * 5 < cases:
             return f"rearrangement {t} under-represented: {dist.get('class:T=' + t, 0)}/{cases}"
